@@ -125,6 +125,10 @@ func generate(g *Gen, prop string, n int) {
 		for i := 0; i < n; i++ {
 			g.genMappingIdentityHistory()
 		}
+	case "C17":
+		for i := 0; i < n; i++ {
+			g.genChangeMappingHistory()
+		}
 	case "C20":
 		for i := 0; i < n; i++ {
 			g.genDatasetHistory()
